@@ -590,7 +590,7 @@ func (r *RigR) actions(drain bool) []Action {
 				continue
 			}
 		}
-		if r.sim.Plan.Prop == "C16" && o.op.Kind == "start" {
+		if r.sim.Plan.Prop == "C16" && o.op.Kind == "start" && !r.sc.Knobs.ConcurrentStarts {
 			// offers are serialised: one StartReadCollection in flight (keeps the unbuffered wait/forward rendezvous replayable)
 			busy := false
 			for _, x := range r.ops {
